@@ -4,8 +4,8 @@
     _greedy_prune_partition, the chunk stream).  A bin table is given as chromosome blocks
     [blocks] (ValidBlocks: block i is a non-empty tiling of chromosome i from 0); the flat table
     the code sees is [concat blocks], chromsizes = [map chrom_end blocks]. *)
-From Cooler Require Import Model.Coarsen Proofs.BinsProofs Proofs.PixelsProofs Proofs.CoarsenProofs.
-From Coq Require Import Sorted.
+From Cooler Require Import Model.Coarsen Proofs.BinsProofs Proofs.PixelsProofs Proofs.CoarsenGroupBy Proofs.CoarsenProofs.
+From Coq Require Import Sorted Permutation.
 
 (* ------------------------------------------------------------------ 1. the new bin table *)
 (** new bin q of chromosome c is [start(old c (q*k)), end(old c (min(q*k+k, n_c) - 1))), there are
@@ -128,6 +128,90 @@ Theorem C08_coarsen_merge_commute : forall lens a b k,
 Proof. exact coarsen_merge_commute. Qed.
 Print Assumptions C08_coarsen_merge_commute.
 
+(* ------------------------------------- 6. any value type, any requested aggregation *)
+(** coarsen_cooler(columns=, agg=): value type V (a row of value columns) and aggregation agg : list V -> V.
+    The concatenated chunk stream is ONE pandas group-by (ascending keys, values of a group in storage
+    order) of the pixels re-keyed by index, for EVERY agg, every valid table, k, chunk size, batch size.
+    [shadow px] is the key columns of the table. *)
+Theorem C08_coarsen_exact : forall (V : Type) (agg : list V -> V) blocks (px : list (key * V)) k chunksize batchsize,
+  1 <= k -> 1 <= chunksize -> 1 <= batchsize -> ValidBlocks blocks ->
+  RowSorted (shadow px) -> InRangeRows (zlen (concat blocks)) (shadow px) ->
+  coarsen_pixels_g agg (concat blocks) (map chrom_end blocks) px k chunksize batchsize
+  = groupby_agg agg (map (grekey (index_table (map zlen blocks) k)) px).
+Proof. intros V agg. exact (coarsen_exact agg). Qed.
+Print Assumptions C08_coarsen_exact.
+
+(** ... i.e. strictly sorted, exactly the new keys that some old pixel falls into, and each new pixel's value
+    is agg of exactly the old values that fall into it, in storage order *)
+Theorem C08_coarsen_pixelwise : forall (V : Type) (agg : list V -> V) blocks (px : list (key * V)) k chunksize batchsize,
+  1 <= k -> 1 <= chunksize -> 1 <= batchsize -> ValidBlocks blocks ->
+  RowSorted (shadow px) -> InRangeRows (zlen (concat blocks)) (shadow px) ->
+  let out := coarsen_pixels_g agg (concat blocks) (map chrom_end blocks) px k chunksize batchsize in
+  let src := map (grekey (index_table (map zlen blocks) k)) px in
+  StronglySorted klt (map fst out) /\
+  (forall key, In key (map fst out) <-> In key (map fst src)) /\
+  (forall key v, In (key, v) out -> v = agg (map snd (filter (fun p => keqb (fst p) key) src))).
+Proof. intros V agg. exact (coarsen_pixelwise agg). Qed.
+Print Assumptions C08_coarsen_pixelwise.
+
+Theorem C08_coarsen_exact_chunk_independent : forall (V : Type) (agg : list V -> V) blocks (px : list (key * V)) k cs1 bs1 cs2 bs2,
+  1 <= k -> 1 <= cs1 -> 1 <= bs1 -> 1 <= cs2 -> 1 <= bs2 -> ValidBlocks blocks ->
+  RowSorted (shadow px) -> InRangeRows (zlen (concat blocks)) (shadow px) ->
+  coarsen_pixels_g agg (concat blocks) (map chrom_end blocks) px k cs1 bs1 =
+  coarsen_pixels_g agg (concat blocks) (map chrom_end blocks) px k cs2 bs2.
+Proof. intros V agg. exact (coarsen_exact_chunk_independent agg). Qed.
+Print Assumptions C08_coarsen_exact_chunk_independent.
+
+(** the sum instance is the model of sections 4-5 (Canon / aggregate) *)
+Theorem C08_sum_instance : forall t sizes (px : list pixel) k cs bs,
+  coarsen_pixels_g sumZ t sizes px k cs bs = coarsen_pixels t sizes px k cs bs.
+Proof. exact coarsen_pixels_sum. Qed.
+Print Assumptions C08_sum_instance.
+
+(** composition for every aggregation that is permutation invariant and composes over a partition into
+    NON-EMPTY blocks (the unguarded law is false for max/min: C08_max_unguarded_refuted) *)
+Theorem C08_coarsen_compose_any_agg : forall (V : Type) (agg : list V -> V),
+  (forall vs vs', Permutation vs vs' -> agg vs = agg vs') ->
+  (forall Gs : list (list V), Forall (fun G => G <> []) Gs -> agg (map agg Gs) = agg (concat Gs)) ->
+  forall blocks (px : list (key * V)) k1 k2 cs1 bs1 cs2 bs2 cs bs,
+  1 <= k1 -> 1 <= k2 -> 1 <= cs1 -> 1 <= bs1 -> 1 <= cs2 -> 1 <= bs2 -> 1 <= cs -> 1 <= bs ->
+  ValidBlocks blocks -> RowSorted (shadow px) -> InRange (zlen (concat blocks)) (shadow px) ->
+  let sizes := map chrom_end blocks in
+  let c1 := coarsen_cooler_g agg (concat blocks) sizes px k1 cs1 bs1 in
+  coarsen_cooler_g agg (fst c1) sizes (snd c1) k2 cs2 bs2 = coarsen_cooler_g agg (concat blocks) sizes px (k1 * k2) cs bs.
+Proof. intros V agg Hp Hc. exact (coarsen_compose_g agg Hp (composes_decomp agg Hc)). Qed.
+Print Assumptions C08_coarsen_compose_any_agg.
+
+Theorem C08_coarsen_merge_commute_any_agg : forall (V : Type) (agg : list V -> V),
+  (forall vs vs', Permutation vs vs' -> agg vs = agg vs') ->
+  (forall Gs : list (list V), Forall (fun G => G <> []) Gs -> agg (map agg Gs) = agg (concat Gs)) ->
+  forall lens (a b : list (key * V)) k,
+  coarsen_spec_g agg lens (groupby_agg agg (a ++ b)) k =
+  groupby_agg agg (coarsen_spec_g agg lens a k ++ coarsen_spec_g agg lens b k).
+Proof. intros V agg Hp Hc. exact (coarsen_merge_commute_g agg Hp (composes_decomp agg Hc)). Qed.
+Print Assumptions C08_coarsen_merge_commute_any_agg.
+
+(** sum, max and min satisfy both laws ... *)
+Theorem C08_sum_max_min_compose : forall op,
+  (forall vs vs', Permutation vs vs' -> agg_of op vs = agg_of op vs') /\
+  (forall Gs : list (list Z), Forall (fun G => G <> []) Gs -> agg_of op (map (agg_of op) Gs) = agg_of op (concat Gs)).
+Proof.
+  intros op. split; [apply agg_of_perm|].
+  destruct op; [apply sumZ_composes|apply agg_max_composes|apply agg_min_composes].
+Qed.
+Print Assumptions C08_sum_max_min_compose.
+
+(** ... the mean does not (so a chain of mean-coarsenings is NOT the direct mean-coarsening: example below),
+    and without the non-emptiness guard max does not either *)
+Theorem C08_mean_compose_refuted :
+  ~ (forall Gs : list (list Z), Forall (fun G => G <> []) Gs -> agg_mean (map agg_mean Gs) = agg_mean (concat Gs)).
+Proof. exact agg_mean_not_composes. Qed.
+Print Assumptions C08_mean_compose_refuted.
+
+Theorem C08_max_unguarded_refuted : exists Gs, agg_max (map agg_max Gs) <> agg_max (concat Gs).
+Proof. exact agg_max_unguarded_refuted. Qed.
+Print Assumptions C08_max_unguarded_refuted.
+
 (* ----------------------------------------------------- executable hypotheses are sound *)
 Theorem C08_hypotheses_decidable : forall blocks px,
   valid_blocks_b blocks = true -> ssorted_b px = true -> inrange_b (zlen (concat blocks)) px = true ->
@@ -176,3 +260,20 @@ Proof. vm_compute. repeat split; reflexivity. Qed.
 Example ex_C08_prune :
   greedy_prune_partition [0; 2; 2; 5; 7; 7] 3 = [0; 5; 7] /\ greedy_prune_partition [0; 0; 0] 4 = [0].
 Proof. vm_compute. split; reflexivity. Qed.
+
+(** max through the same stream: three chunks, the new pixel (0,0) is the max of the three old values *)
+Example ex_C08_max :
+  coarsen_cooler_g agg_max (concat ex_blocks) (map chrom_end ex_blocks) ex_px 2 1 1 =
+    ([(0,0,20);(0,20,35);(1,0,9)], [((0,0),3);((0,1),2);((0,2),1);((1,2),5);((2,2),2)]).
+Proof. vm_compute. reflexivity. Qed.
+
+(** mean: k=2 then k=2 differs from k=4 on a concrete valid cooler (values 1 | 3, 5) *)
+Example ex_C08_mean_chain_refuted :
+  let blocks := [[(0,0,1);(0,1,2);(0,2,3);(0,3,4)]] in
+  let px := [((0,0),1);((0,2),3);((1,3),5)] in
+  let sizes := map chrom_end blocks in
+  valid_blocks_b blocks = true /\ ssorted_b px = true /\
+  let c1 := coarsen_cooler_g agg_mean (concat blocks) sizes px 2 1 1 in
+  snd (coarsen_cooler_g agg_mean (fst c1) sizes (snd c1) 2 1 1) = [((0,0),2)] /\
+  snd (coarsen_cooler_g agg_mean (concat blocks) sizes px 4 1 1) = [((0,0),3)].
+Proof. vm_compute. repeat split; reflexivity. Qed.
